@@ -35,7 +35,9 @@ def load_variables(filename: str) -> PyTree:
 
     variables = serialization.msgpack_restore(bytes_input)
 
-    var_in = {"params": variables["params"], "batch_stats": variables["batch_stats"]}
+    var_in = {"params": variables["params"]}
+    if "batch_stats" in variables:  # absent for models without normalization layers
+        var_in["batch_stats"] = variables["batch_stats"]
 
     return var_in
 
